@@ -216,12 +216,15 @@ class NDArrayImageStack(ImageStack[ScalarType]):
             if np.issubdtype(dtype, np.floating) and np.issubdtype(
                 dtype_raw, np.unsignedinteger
             ):
-                sclar_factor = 1.0 / UINT_MAX[dtype_raw]
-                imgs = sclar_factor * imgs.astype(dtype)
+                # rescale before narrowing: a saturated uint16 voxel does
+                # not fit into a float16
+                sclar_factor = np.float64(1.0 / UINT_MAX[dtype_raw])
+                imgs = (sclar_factor * imgs).astype(dtype)
             elif np.issubdtype(dtype, np.unsignedinteger) and np.issubdtype(
                 dtype_raw, np.floating
             ):
-                sclar_factor = UINT_MAX[np.dtype(dtype)]  # type: ignore
+                # rescale in double precision: 65535 is not a float16
+                sclar_factor = np.float64(UINT_MAX[np.dtype(dtype)])  # type: ignore
                 imgs = (sclar_factor * imgs).astype(dtype)
             else:
                 imgs = imgs.astype(dtype)
